@@ -231,7 +231,7 @@ func (e *Explorer) Run() *Report {
 func factKey(f map[string]string) string {
 	var ks []string
 	for k := range f {
-		if k == "site" {
+		if k == "site" || strings.HasPrefix(k, "i:") {
 			continue
 		}
 		ks = append(ks, k)
